@@ -408,6 +408,7 @@ func checkC40(w *World, r *Run) {
 	ruleDel := r.Rule("tx-free-read-answers-from-the-latest-outbox-entry", "F1",
 		"the transaction-free GetPart of the outbox part store looks up the latest entry of the requested part, reads the inner store only when there is none and answers ErrPartNotFound when it is a pending delete: a part deleted by a concurrent overwrite must fail the download, not end it early as an empty part", 3)
 	checkPartOutboxGetPart(w, r, ruleDel, []string{"getPartTxFree"})
+	checkCacheStoreChecksCopy(w, r)
 	checkCapabilitiesOverAllStores(w, r, ruleCaps)
 	checkEmptyPartOnlyForExistingEntry(w, r, ruleDel)
 	ruleKeep := r.Rule("bytes-delivered-with-an-error-are-kept", "F1",
